@@ -231,11 +231,12 @@ type runner struct {
 	shutdowns   int32
 	dfltCtr     int32
 	curGen      int32
-	sharedErrs  sync.Map     // c/2 -> *res.Error without code, sent by the handlers of requests c and c+1
-	unmatched   sync.Map     // c -> true for requests sent to a resource no handler matches
-	resets      [8]int32     // system.reset messages seen per connection generation
-	onConnClose atomic.Value // func(), called at the end of conn.Close
-	sharedTids  []string     // argument slices shared by all publisher goroutines: the service may read them, never write
+	sharedErrs  sync.Map      // c/2 -> *res.Error without code, sent by the handlers of requests c and c+1
+	unmatched   sync.Map      // c -> true for requests sent to a resource no handler matches
+	resets      [8]int32      // system.reset messages seen per connection generation
+	onConnClose atomic.Value  // func(), called at the end of conn.Close
+	stopPoll    chan struct{} // closes the log poller of race-detector runs
+	sharedTids  []string      // argument slices shared by all publisher goroutines: the service may read them, never write
 	sharedRes   []string
 	lastReq     sync.Map     // group -> *int32: number of the last request whose callback was started
 	noteFn      atomic.Value // func(pt string): scenario-specific action at a Note point
@@ -338,6 +339,15 @@ func (r *runner) submit(g string) {
 	if c%8 == 7 && g != "" {
 		rid = fmt.Sprintf("svc.mw.z%d.%s.x.%d", c%3, g, c)
 	}
+	if c%16 == 9 {
+		// default groups of the root resource and of the name "svc." (one empty token): the resource names themselves
+		g = []string{"svc", "svc."}[(c/16)%2]
+		r.cbGroup.Store(c, g)
+		// the submission recorded above carries the old group: replace it
+		r.unpushSub()
+		r.pushSub(g, c)
+		rid = g
+	}
 	if c%8 == 5 && g != "" {
 		// a placeholder matches ANY token: ids whose tokens are not plain words match the handler just the same
 		// (a request for such a name would reach the handler), so With/Resource must accept them
@@ -346,7 +356,14 @@ func (r *runner) submit(g string) {
 	}
 	switch c % 4 {
 	case 1, 3:
-		if err := r.s.With(rid, func(res.Resource) { r.body(c, g, nested) }); err != nil {
+		if err := r.s.With(rid, func(rs res.Resource) {
+			// the resource handed to the callback is that of the handler whose pattern matches the id: the root
+			// pattern for the service name itself, the one-placeholder pattern for "svc." (an empty token)
+			if _, solo := rs.PathParams()["solo"]; rs.ResourceName() != rid || solo != (rid == "svc.") {
+				r.violation(fmt.Sprintf("with-wrong-handler: the callback of With(%q) got the resource %q with path parameters %v", rid, rs.ResourceName(), rs.PathParams()))
+			}
+			r.body(c, g, nested)
+		}); err != nil {
 			r.unpushSub()
 			r.violation("with-error: With reported an error for the resource id " + strconv.Quote(rid) + ", which a handler pattern matches: " + err.Error())
 		}
@@ -376,7 +393,7 @@ func (r *runner) submit(g string) {
 			r.violation("with-error: With reported an error for " + gb + ", which the handler pattern bt.$x.other matches: " + err.Error())
 		}
 		// ... also for ids that merely START with the service name or miss the separator
-		for _, id := range []string{fmt.Sprintf("svc_item.%d.%s", c, g), fmt.Sprintf("svcitem.%d.%s", c, g), "svc", "sv.par.1", fmt.Sprintf("svc.item.%d", c)} {
+		for _, id := range []string{fmt.Sprintf("svc_item.%d.%s", c, g), fmt.Sprintf("svcitem.%d.%s", c, g), "svcx", "sv.par.1", fmt.Sprintf("svc.item.%d", c)} {
 			id := id
 			if err := r.s.With(id, func(res.Resource) {
 				r.violation("with-nomatch-ran: callback of With on the unmatched resource id " + id + " was executed")
@@ -464,7 +481,22 @@ func (r *runner) newService(c *conn) *res.Service {
 		if r.sc.Seed%3 == 0 {
 			s.SetLogger(logger.NewStdLogger()) // writes info/error lines to stderr, which the race driver discards
 		} else {
-			s.SetLogger(logger.NewMemLogger().SetTrace(true))
+			ml := logger.NewMemLogger().SetTrace(true)
+			s.SetLogger(ml)
+			// the log is read (as a failing test prints it) while the service is writing to it from all its goroutines
+			stopPoll := make(chan struct{})
+			r.stopPoll = stopPoll
+			go func() {
+				for {
+					select {
+					case <-stopPoll:
+						return
+					default:
+						_ = ml.String()
+						time.Sleep(200 * time.Microsecond)
+					}
+				}
+			}()
 		}
 	} else if r.sc.Kind == "d1" || r.sc.Kind == "d5" || (r.sc.Kind == "random" && r.sc.Shutdown == "during" && r.sc.Seed%2 == 0) {
 		// a logger, and an error hook that re-enters the service the way an application reporting errors over
@@ -521,6 +553,10 @@ func (r *runner) newService(c *conn) *res.Service {
 	sub := res.NewMux("")
 	s.Mount("sub", sub)
 	s.Handle("sub.dflt.$k", res.GetResource(func(q res.GetRequest) { q.NotFound() }))
+	// the root resource of the named service (pattern ""): its default group is the service name; and a pattern that is
+	// one placeholder token: "svc." (an empty token after the service name) matches it, not the root pattern
+	s.Handle("", res.GetResource(func(q res.GetRequest) { q.NotFound() }))
+	s.Handle("$solo", res.GetResource(func(q res.GetRequest) { q.NotFound() }))
 	// a pattern ending in the full wildcard, registered on a mounted Mux, whose group tag is not the first placeholder
 	mw := res.NewMux("")
 	mw.Handle("$zone.$shard.>", res.Group("${shard}"), res.GetResource(func(q res.GetRequest) { q.NotFound() }))
@@ -641,6 +677,9 @@ func (r *runner) run() bool {
 	}
 	if sc.Kind == "d13" {
 		return r.runD13()
+	}
+	if sc.Kind == "d14" {
+		return r.runD14()
 	}
 	c := &conn{rec: r.rec, r: r}
 	s := r.newService(c)
@@ -1636,6 +1675,65 @@ func (r *runner) runD13() bool {
 	return true
 }
 
+// runD14: Shutdown while callbacks keep arriving for a group that is busy: a callback that re-submits itself every time
+// it runs, and another goroutine submitting to the same group in a loop. Once Shutdown has begun the submissions are
+// refused, so the group's queue runs dry and Shutdown returns within bounded time. Runtime checks only.
+func (r *runner) runD14() bool {
+	c1 := &conn{rec: r.rec, r: r, gen: 0}
+	s := r.newService(c1)
+	r.s = s
+	served := make(chan error, 1)
+	go func() { served <- s.Serve(c1) }()
+	for i := 0; i < 50000 && atomic.LoadInt32(&r.resets[0]) == 0; i++ {
+		time.Sleep(100 * time.Microsecond)
+	}
+	g := "g1"
+	var stop, ran int32
+	var self func(*res.Service)
+	self = func(*res.Service) {
+		atomic.AddInt32(&ran, 1)
+		time.Sleep(50 * time.Microsecond)
+		if atomic.LoadInt32(&stop) == 0 {
+			s.WithGroup(g, self)
+		}
+	}
+	s.WithGroup(g, self)
+	var wg sync.WaitGroup
+	r.safeGo(&wg, "WithGroup", func() {
+		for atomic.LoadInt32(&stop) == 0 {
+			s.WithGroup(g, func(*res.Service) { atomic.AddInt32(&ran, 1) })
+			time.Sleep(20 * time.Microsecond)
+		}
+	})
+	time.Sleep(5 * time.Millisecond)
+	before := atomic.LoadInt32(&ran)
+	ok := make(chan bool, 1)
+	go func() {
+		done := make(chan error, 1)
+		go func() { done <- s.Shutdown() }()
+		select {
+		case <-done:
+			ok <- true
+		case <-time.After(3 * time.Second):
+			r.violation(fmt.Sprintf("shutdown-hang: Shutdown did not return within 3 s while callbacks kept being submitted to a busy group (%d callbacks ran after Shutdown was called)", atomic.LoadInt32(&ran)-before))
+			ok <- false
+		}
+	}()
+	res := <-ok
+	atomic.StoreInt32(&stop, 1)
+	wg.Wait()
+	if !res {
+		return false
+	}
+	select {
+	case <-served:
+	case <-time.After(5 * time.Second):
+		r.violation("serve-hang: Serve did not return after Shutdown")
+		return false
+	}
+	return true
+}
+
 // runRestartLoop: many stop/start cycles in which Serve is called again as soon as Shutdown has returned (the service
 // is stopped then), without waiting for the previous Serve call to return. The new Serve must be accepted and must
 // not panic, the previous Serve call must return although a new cycle is being served, and each cycle publishes its
@@ -2029,6 +2127,9 @@ func runScenario(sc scenario) (Case, []ImplViolation, bool) {
 	}
 	verifhook.SetNote(nil)
 	verifhook.SetGate(nil)
+	if r.stopPoll != nil {
+		close(r.stopPoll)
+	}
 	r.rec.mu.Lock()
 	log := append([]entry{}, r.rec.log...)
 	r.rec.mu.Unlock()
@@ -2048,7 +2149,7 @@ func runScenario(sc scenario) (Case, []ImplViolation, bool) {
 	}
 	cv := &conv{r: r, widx: map[uint64]int{}, retired: map[uint64]bool{}, running: map[uint64]int{}, prod: map[uint64]int{}, prodSub: map[uint64]submission{},
 		pub: map[uint64]int{}, subIdx: map[uint64]int{}, groupNum: map[string]int{}, svc: "stopped"}
-	if sc.Kind != "d9" && sc.Kind != "d11" && sc.Kind != "d12" && sc.Kind != "d13" && sc.Kind != "restartloop" {
+	if sc.Kind != "d9" && sc.Kind != "d11" && sc.Kind != "d12" && sc.Kind != "d13" && sc.Kind != "d14" && sc.Kind != "restartloop" {
 		if err := cv.convert(log); err != nil {
 			r.violation("harness-conversion: " + err.Error())
 		}
@@ -2176,6 +2277,10 @@ func main() {
 			scs = append(scs, scenario{Kind: "d12", Workers: []int{1, 2, 32}[rng.Intn(3)], InCh: 1024, Groups: []string{"g1"},
 				Cycles: 1, Shutdown: "after", Seed: rng.Next()%1000000/2*2 + uint64(i%2)})
 		}
+		for i := 0; i < nd; i++ {
+			scs = append(scs, scenario{Kind: "d14", Workers: []int{1, 2, 32}[i%3], InCh: 1024, Groups: []string{"g1"},
+				Cycles: 1, Shutdown: "after", Seed: rng.Next() % 1000000})
+		}
 		for i := 0; i < 1+nd/30; i++ {
 			scs = append(scs, scenario{Kind: "d13", Workers: []int{1, 2, 32}[rng.Intn(3)], InCh: 1024, Groups: []string{"g1"},
 				Cycles: 1, Shutdown: "after", Seed: rng.Next()%1000000/2*2 + uint64(i%2)})
@@ -2242,7 +2347,7 @@ func main() {
 	}
 	hdr := "From stdpp Require Import gmap.\nFrom Coq Require Import NArith String.\nFrom GoRes Require Import Run.Run_" + runMod + ".\nLocal Open Scope string_scope."
 	Emit(o, *prop, hdr, "scase",
-		"real res.Service runs (worker counts 1/2/3/8/32, in-channel 1/2/1024, 1-6 producer goroutines using WithGroup incl. nested submissions from callbacks, requests through the in-channel incl. Parallel resources, publishers, 1-3 serve/shutdown cycles, shutdown after/during/none, seeded schedule perturbation at hook points) + directed schedules d1-d10 (enqueue after close-nil, publish after shutdown, append before re-lock, parked Signal, producers during parked close, ResetAll during Serve start-up, query expiry during Shutdown with a same-group callback in flight, an in-flight callback emitting an event and a query event after the connection was closed followed by a serve cycle on a new connection; d9: first Serve refused its subscriptions while a With callback from the started window is in flight or the first Close is slow, Serve retried in a loop on a new connection - runtime checks only; d10: a query request and the expiry of a query event while a callback of the resource's group is executing; restartloop (C03 only): 1500 stop/start cycles with Serve called as soon as Shutdown has returned - runtime checks only; d11: Serve called in the tail of Shutdown, after the service was flagged stopped and before Shutdown returned - runtime checks only; d12: Shutdown after a start that failed before the service was flagged started; d13: Shutdown while a callback executes for 6 s; dep: callbacks of different idle groups accepted back to back that wait for each other (no accepted callback may wait in the queue while workers are idle); reqorder: one sender delivering 400 get/access/call requests of one group back to back, each to the channel of the subscription its subject matches, with the runtime check that their callbacks start in delivery order) + simultaneous submissions to an idle group behind a spin barrier (burst) + high-contention stress runs (thousands of tiny callbacks on 1-2 groups); every serve cycle gets a fresh connection object and anything published on an earlier one is a violation; one case = one run's label trace; non-trivial = a callback was appended to a live work item and >= 2 workers took work, or a directed schedule; distinct by trace",
+		"real res.Service runs (worker counts 1/2/3/8/32, in-channel 1/2/1024, 1-6 producer goroutines using WithGroup incl. nested submissions from callbacks, requests through the in-channel incl. Parallel resources, publishers, 1-3 serve/shutdown cycles, shutdown after/during/none, seeded schedule perturbation at hook points) + directed schedules d1-d10 (enqueue after close-nil, publish after shutdown, append before re-lock, parked Signal, producers during parked close, ResetAll during Serve start-up, query expiry during Shutdown with a same-group callback in flight, an in-flight callback emitting an event and a query event after the connection was closed followed by a serve cycle on a new connection; d9: first Serve refused its subscriptions while a With callback from the started window is in flight or the first Close is slow, Serve retried in a loop on a new connection - runtime checks only; d10: a query request and the expiry of a query event while a callback of the resource's group is executing; restartloop (C03 only): 1500 stop/start cycles with Serve called as soon as Shutdown has returned - runtime checks only; d11: Serve called in the tail of Shutdown, after the service was flagged stopped and before Shutdown returned - runtime checks only; d12: Shutdown after a start that failed before the service was flagged started; d13: Shutdown while a callback executes for 6 s; d14: Shutdown while a callback keeps re-submitting itself and another goroutine keeps submitting to the same busy group; dep: callbacks of different idle groups accepted back to back that wait for each other (no accepted callback may wait in the queue while workers are idle); reqorder: one sender delivering 400 get/access/call requests of one group back to back, each to the channel of the subscription its subject matches, with the runtime check that their callbacks start in delivery order) + simultaneous submissions to an idle group behind a spin barrier (burst) + high-contention stress runs (thousands of tiny callbacks on 1-2 groups); every serve cycle gets a fresh connection object and anything published on an earlier one is a violation; one case = one run's label trace; non-trivial = a callback was appended to a live work item and >= 2 workers took work, or a directed schedule; distinct by trace",
 		cases, dist, nil, impl, 40)
 	if len(impl) > 0 {
 		fmt.Fprintln(os.Stderr, "impl violations:", len(impl))
